@@ -483,6 +483,7 @@ func diskScenario(kind string, seq []int) *sched.Config {
 			}
 			var sto blobserver.Storage
 			var leftovers func() []string
+			var reindex func() (blobserver.Storage, func(), error)
 			switch kind {
 			case "files":
 				im := crashlog.NewImage()
@@ -512,9 +513,31 @@ func diskScenario(kind string, seq []int) *sched.Config {
 				if err != nil {
 					panic(err)
 				}
-				defer s.(io.Closer).Close()
+				closed := false
+				defer func() {
+					if !closed {
+						s.(io.Closer).Close()
+					}
+				}()
 				sto = s
 				leftovers = func() []string { return nil }
+				reindex = func() (blobserver.Storage, func(), error) {
+					s.(io.Closer).Close()
+					closed = true
+					kv2 := hs.NewKV(fmt.Sprintf("c13dp-r-%p", x))
+					hs.RegisterKV(kv2)
+					conf := jsonconfig.Obj{"type": "verifkv", "name": kv2.Name}
+					if err := diskpacked.Reindex(ctx, dir, true, conf); err != nil {
+						hs.UnregisterKV(kv2.Name)
+						return nil, nil, err
+					}
+					s2, err := blobserver.CreateStorage("diskpacked", nil, jsonconfig.Obj{"path": dir, "maxFileSize": float64(100 << 10), "metaIndex": map[string]any{"type": "verifkv", "name": kv2.Name}})
+					if err != nil {
+						hs.UnregisterKV(kv2.Name)
+						return nil, nil, err
+					}
+					return s2, func() { s2.(io.Closer).Close(); hs.UnregisterKV(kv2.Name) }, nil
+				}
 			}
 			ref := hs.NewRefMap()
 			sb := universe[1]
@@ -580,6 +603,20 @@ func diskScenario(kind string, seq []int) *sched.Config {
 			}
 			if m := hs.Battery(sto, ref, universe, hs.BatteryOpt{Light: true}); m != nil {
 				xfail("after-fault-rereceive|"+m.Kind, fmt.Sprintf("ops [%s], faults at %v: after re-receiving everything: %s", seqName(seq), faultLog, m.Detail))
+				return
+			}
+			if reindex != nil {
+				// the pack files alone must still rebuild the index (a failed call may not leave
+				// debris in a pack that later records are appended behind)
+				rsto, closeFn, err := reindex()
+				if err != nil {
+					xfail("recovery-fails", fmt.Sprintf("ops [%s], faults at %v: after the healthy continuation, rebuilding the index from the pack files fails: %v", seqName(seq), faultLog, err))
+					return
+				}
+				defer closeFn()
+				if m := hs.Battery(rsto, ref, universe, hs.BatteryOpt{Light: true}); m != nil {
+					xfail("after-recovery|"+m.Kind, fmt.Sprintf("ops [%s], faults at %v: after rebuilding the index from the pack files: %s", seqName(seq), faultLog, m.Detail))
+				}
 			}
 		}}
 }
